@@ -56,6 +56,29 @@ class Chooser:
         return sum(1 for t in self.trace if t[3] and t[2])
 
 
+class NamedChooser(Chooser):
+    """Answers each choice point from a {name: value} mapping (default elsewhere): lets a finite enumerator drive a choice-point builder
+    through a complete product of a few named dimensions."""
+    __slots__ = ('mapping',)
+
+    def __init__(self, mapping):
+        super().__init__(())
+        self.mapping = mapping
+
+    def _next(self, name, alts, costed):
+        if name in self.mapping:
+            v = self.mapping[name]
+            if v not in alts:
+                raise HarnessError('value %r is not an alternative of %s' % (v, name))
+            c = alts.index(v)
+        else:
+            c = 0
+        self.trace.append((name, len(alts), c, costed))
+        if c:
+            self.labels.append('%s=%s' % (name, _label(alts[c])))
+        return alts[c]
+
+
 def _label(v):
     if isinstance(v, (bytes, bytearray)):
         s = v.hex()
